@@ -81,7 +81,7 @@ class NB:
         sh, sw = (d(st.sampled_from([1, 1, 2, 3])), d(st.sampled_from([1, 1, 2, 3]))) if force_stride is None else force_stride
         if self.profile == "convs" and d(st.booleans()):
             sh = sw = 1
-        if sh == sw == 1 and d(st.integers(0, 3 if self.profile != "convs" else 1)) == 0:
+        if sh == sw == 1 and d(st.integers(0, 3 if self.profile not in ("convs", "cascade") else 1)) == 0:
             # dilation per axis, also beyond the hardware's native factor 2 (the compiler then dilates the kernel itself) and different on the two axes
             dil_h, dil_w = d(st.sampled_from([1, 2, 2, 3, 4])), d(st.sampled_from([1, 2, 2, 3, 4]))
             if kind != "conv" and max(dil_h, dil_w) > 2:
